@@ -7,6 +7,9 @@ Open Scope Z_scope.
 (* ------------------------------------------------------------------ the writer, heartbeat counts *)
 Definition unfrag (cf : cfg) (chs : list change) : Prop := forall c, In c chs -> nfrags cf c <= 1.
 
+Lemma filter_len_le {A} (f : A -> bool) l : (length (filter f l) <= length l)%nat.
+Proof. induction l as [|x t IH]; cbn; [lia|]. destruct (f x); cbn; lia. Qed.
+
 (* what write_message_reliable emits: DATA+HEARTBEAT, GAP, HEARTBEAT; every heartbeat is fresh *)
 Definition hsub (lo hi last : Z) (m : submsg) : Prop :=
   match m with
@@ -31,7 +34,8 @@ Lemma unsent_rel_live last fuel cf now chs : Contig chs last -> unfrag cf chs ->
   rp_hs (fst r) = last /\ rp_hbc p <= rp_hbc (fst r) /\
   Forall (hdg lo (rp_hbc (fst r)) last) (snd r) /\
   (lo < rp_hbc (fst r) -> has_hb (rp_hbc (fst r)) last (snd r)) /\
-  (rp_hbt (fst r) = rp_hbt p \/ rp_hbt (fst r) = now).
+  ((rp_hbc p = rp_hbc (fst r) /\ rp_hbt (fst r) = rp_hbt p) \/ (rp_hbc p < rp_hbc (fst r) /\ rp_hbt (fst r) = now)) /\
+  (rp_hs p < last -> rp_fr p < last -> rp_hbc p < rp_hbc (fst r)).
 Proof.
   intros Hc Hu. induction fuel as [|f IH]; intros p acc lo Hhs Hfuel Hlo Ha Hhb; cbn [unsent_rel].
   { cbn. repeat split; try lia; try assumption; try (left; reflexivity). }
@@ -46,9 +50,9 @@ Proof.
     apply lookup_relevant_in in El. destruct El as (Hcin & _ & _).
     assert (1 <? nfrags cf c = false) as -> by (apply Z.ltb_ge; apply Hu; assumption).
     match goal with |- context [unsent_rel f cf now chs ?q ?a] => specialize (IH q a lo) end.
-    cbn [rp_hs rp_hbc rp_hbt set_hs fst snd] in IH.
+    cbn [rp_hs rp_hbc rp_hbt rp_fr set_hs fst snd] in IH.
     destruct (Z.ltb_spec (rp_hs p) (rp_hs p + 1)); [|lia].
-    destruct IH as (A & B & C & D & E); try lia.
+    destruct IH as (A & B & C & D & E & F); try lia.
     + apply Forall_app; split.
       * eapply Forall_impl; [|exact Ha]. intros d. apply hdg_mono; lia.
       * constructor; [|constructor]. split; [reflexivity|]. cbn. constructor; [exact I|]. constructor; [|constructor]. cbn. lia.
@@ -57,13 +61,13 @@ Proof.
     + repeat split; try assumption; try lia.
   - apply lookup_relevant_none in El; [|assumption].
     match goal with |- context [unsent_rel f cf now chs ?q ?a] => specialize (IH q a lo) end.
-    cbn [rp_hs rp_hbc rp_hbt set_hs fst snd] in IH.
+    cbn [rp_hs rp_hbc rp_hbt rp_fr set_hs fst snd] in IH.
     destruct (Z.ltb_spec (rp_hs p) (rp_hs p + 1)); [|lia].
-    destruct IH as (A & B & C & D & E); try lia; try assumption.
+    destruct IH as (A & B & C & D & E & F); try lia; try assumption.
     + apply Forall_app; split; [assumption|].
       constructor; [|constructor]. split; [reflexivity|]. cbn. constructor; [exact I|constructor].
     + intros Hl. destruct (Hhb Hl) as [d [Hd Hs]]. exists d. split; [apply in_or_app; left; assumption|assumption].
-    + repeat split; assumption.
+    + repeat split; try assumption. intros H1 H2. apply F; lia.
 Qed.
 
 Lemma req_loop_live last fuel cf now chs : Contig chs last -> unfrag cf chs ->
@@ -75,7 +79,7 @@ Lemma req_loop_live last fuel cf now chs : Contig chs last -> unfrag cf chs ->
   rp_hbc p <= rp_hbc (fst r) /\
   Forall (hdg lo (rp_hbc (fst r)) last) (snd r) /\
   (lo < rp_hbc (fst r) -> has_hb (rp_hbc (fst r)) last (snd r)) /\
-  (rp_hbt (fst r) = rp_hbt p \/ rp_hbt (fst r) = now) /\
+  ((rp_hbc p = rp_hbc (fst r) /\ rp_hbt (fst r) = rp_hbt p) \/ (rp_hbc p < rp_hbc (fst r) /\ rp_hbt (fst r) = now)) /\
   ((exists n, In n (rp_req p) /\ rp_fr p < n) -> rp_hbc p < rp_hbc (fst r)).
 Proof.
   intros Hc Hu. induction fuel as [|f IH]; intros p acc lo Hreq Hlo Ha Hhb Hfuel; cbn [req_loop].
@@ -88,13 +92,16 @@ Proof.
   assert (Hin : In n (sns chs)) by (apply (contig_in chs last _ Hc); lia).
   assert (Hhbv : first_sn chs = 1 /\ last_sn chs = last) by (split; [eapply contig_first|eapply contig_last]; eassumption).
   set (p0 := set_req p (filter (fun s => negb (s =? n)) (rp_req p))).
+  assert (E1 : rp_hbc p0 = rp_hbc p) by reflexivity.
+  assert (E2 : rp_hbt p0 = rp_hbt p) by reflexivity.
+  assert (E3 : rp_fr p0 = rp_fr p) by reflexivity.
   assert (Hreq0 : Forall (fun n => 1 <= n <= last) (rp_req p0)) by (subst p0; cbn; apply Forall_filter; assumption).
   assert (Hlen0 : Z.of_nat (length (rp_req p0)) < Z.of_nat f).
   { subst p0. cbn [rp_req set_req].
-    assert (length (filter (fun s => negb (s =? n)) (rp_req p)) < length (rp_req p))%nat; [|lia].
+    assert (length (filter (fun s => negb (Z.eqb s n)) (rp_req p)) < length (rp_req p))%nat; [|lia].
     clear - Hn. induction (rp_req p) as [|x t IHt]; [contradiction|]. cbn.
     destruct (Z.eqb_spec x n) as [->|Hne]; cbn.
-    - pose proof (filter_length_le (fun s => negb (s =? n)) t). lia.
+    - pose proof (filter_len_le (fun s => negb (Z.eqb s n)) t). lia.
     - destruct Hn as [Hx|Hn]; [congruence|]. specialize (IHt Hn). lia. }
   destruct (lookup_relevant p0 n chs) as [c|] eqn:El.
   - unfold gen_hb. destruct Hhbv as [-> ->].
@@ -102,23 +109,771 @@ Proof.
     assert (1 <? nfrags cf c = false) as -> by (apply Z.ltb_ge; apply Hu; assumption).
     match goal with |- context [req_loop f cf now chs ?q ?a] => specialize (IH q a lo) end.
     cbn [rp_req rp_hbc rp_hbt rp_fr fst snd] in IH.
-    destruct IH as (A & B & C & D & E); try lia; try assumption.
+    assert (Hacc : Forall (hdg lo (rp_hbc p0 + 1) last) (acc ++ [toR [SData c; SHb 1 last (rp_hbc p0 + 1)]])).
+    { apply Forall_app; split.
+      - eapply Forall_impl; [|exact Ha]. intros d. apply hdg_mono; lia.
+      - constructor; [|constructor]. split; [reflexivity|]. cbn. constructor; [exact I|]. constructor; [|constructor]. cbn. lia. }
+    assert (Hhb1 : lo < rp_hbc p0 + 1 -> has_hb (rp_hbc p0 + 1) last (acc ++ [toR [SData c; SHb 1 last (rp_hbc p0 + 1)]])).
+    { intros _. exists (toR [SData c; SHb 1 last (rp_hbc p0 + 1)]). split; [apply in_or_app; right; left; reflexivity|].
+      cbn. right. left. reflexivity. }
+    assert (Hlo1 : lo <= rp_hbc p0 + 1) by lia.
+    destruct (IH Hreq0 Hlo1 Hacc Hhb1 Hlen0) as (A & B & C & D & E).
+    repeat split; try assumption; try lia.
+  - pose proof El as El'. apply lookup_relevant_none in El'; [|assumption]. rewrite E3 in El'.
+    specialize (IH p0 (acc ++ [toR [SGap n (n + 1)]]) lo).
+    assert (Hacc : Forall (hdg lo (rp_hbc p0) last) (acc ++ [toR [SGap n (n + 1)]])).
+    { apply Forall_app; split; [rewrite E1; assumption|].
+      constructor; [|constructor]. split; [reflexivity|]. cbn. constructor; [exact I|constructor]. }
+    assert (Hhb1 : lo < rp_hbc p0 -> has_hb (rp_hbc p0) last (acc ++ [toR [SGap n (n + 1)]])).
+    { rewrite E1. intros Hl. destruct (Hhb Hl) as [d [Hd Hs]]. exists d. split; [apply in_or_app; left; assumption|assumption]. }
+    assert (Hlo1 : lo <= rp_hbc p0) by lia.
+    destruct (IH Hreq0 Hlo1 Hacc Hhb1 Hlen0) as (A & B & C & D & E).
+    repeat split; try assumption; try lia.
+    intros [m [Hm Hfr]]. rewrite <- E1. apply E. exists m. split; [|lia].
+    subst p0. cbn [rp_req set_req]. apply filter_In. split; [assumption|]. apply negb_true_iff. apply Z.eqb_neq. lia.
+Qed.
+
+Lemma contig_length chs last : Contig chs last -> Z.of_nat (length chs) = last.
+Proof.
+  intros [Hs H0]. assert (length (sns chs) = length (zrange 1 last)) by (rewrite Hs; reflexivity).
+  unfold sns, zrange in H. rewrite !map_length, seq_length in H. lia.
+Qed.
+
+Lemma write_rel_live last cf now chs p : Contig chs last -> unfrag cf chs ->
+  0 <= rp_hs p <= last -> 0 <= rp_ha p -> Forall (fun n => 1 <= n <= last) (rp_req p) ->
+  let r := write_rel cf now chs p in
+  rp_hs (fst r) = last /\ rp_hbc p <= rp_hbc (fst r) /\
+  Forall (hdg (rp_hbc p) (rp_hbc (fst r)) last) (snd r) /\
+  (rp_hbc p < rp_hbc (fst r) -> has_hb (rp_hbc (fst r)) last (snd r)) /\
+  ((rp_hbc p = rp_hbc (fst r) /\ rp_hbt (fst r) = rp_hbt p) \/ (rp_hbc p < rp_hbc (fst r) /\ rp_hbt (fst r) = now)) /\
+  ((exists n, In n (rp_req p) /\ rp_fr p < n) -> rp_hbc p < rp_hbc (fst r)) /\
+  (rp_hs p = last -> rp_ha p < last -> hb_period <= now - rp_hbt p -> rp_hbc p < rp_hbc (fst r)) /\
+  (rp_hs p < last -> rp_fr p < last -> rp_hbc p < rp_hbc (fst r)).
+Proof.
+  intros Hc Hu Hhs Hha Hreq. pose proof (contig_length chs last Hc) as Hlen. unfold write_rel.
+  match goal with |- context [let '(p1, out1) := ?X in _] => destruct X as [p1 out1] eqn:E1 end.
+  assert (H1 : rp_hs p1 = last /\ rp_hbc p <= rp_hbc p1 /\ Forall (hdg (rp_hbc p) (rp_hbc p1) last) out1 /\
+               (rp_hbc p < rp_hbc p1 -> has_hb (rp_hbc p1) last out1) /\
+               ((rp_hbc p = rp_hbc p1 /\ rp_hbt p1 = rp_hbt p) \/ (rp_hbc p < rp_hbc p1 /\ rp_hbt p1 = now)) /\
+               rp_req p1 = rp_req p /\ rp_fr p1 = rp_fr p /\
+               (rp_hs p = last -> rp_ha p < last -> hb_period <= now - rp_hbt p -> rp_hbc p < rp_hbc p1) /\
+               (rp_hs p < last -> rp_fr p < last -> rp_hbc p < rp_hbc p1)).
+  { rewrite (contig_next_unsent chs last p Hc) in E1 by lia.
+    destruct (Z.ltb_spec (rp_hs p) last) as [Hlt|Hge].
+    - pose proof (unsent_rel_live last (S (length chs)) cf now chs Hc Hu p [] (rp_hbc p) Hhs) as H.
+      lazy zeta in H. rewrite E1 in H. cbn [fst snd] in H.
+      destruct H as (A & B & C & D & E & Fst); try lia; [constructor|].
+      pose proof (unsent_rel_class (rp_fr p) last (S (length chs)) cf now chs Hc) as H'.
+      pose proof (unsent_rel_static (S (length chs)) cf now chs p []) as Hs.
+      assert (Hreq1 : rp_req p1 = rp_req p).
+      { clear - E1. revert E1. generalize (@nil dgram). generalize (S (length chs)). intros fu. revert p p1 out1.
+        induction fu as [|f IH]; intros p p1 out1 acc E; cbn [unsent_rel] in E; [inversion E; reflexivity|].
+        destruct (next_unsent p chs) as [n|]; [|inversion E; reflexivity].
+        destruct (rp_hs p + 1 <? n); [unfold gen_hb in E; apply IH in E; exact E|].
+        destruct (lookup_relevant p n chs) as [c|]; [|apply IH in E; exact E].
+        unfold gen_hb in E. destruct (1 <? nfrags cf c); apply IH in E; exact E. }
+      rewrite E1 in Hs. cbn [fst] in Hs. apply static_fr in Hs. destruct Hs as (Hfr & _).
+      repeat split; try assumption; try lia.
+    - assert (Hhs' : rp_hs p = last) by lia.
+      destruct (negb (unacked p (zmax_list (sns chs)))) eqn:Eu.
+      + injection E1 as <- <-. repeat split; try lia; try constructor.
+        intros _ Hlt _. exfalso. apply negb_true_iff in Eu. unfold unacked in Eu.
+        destruct (zmax_list (sns chs)) as [m|] eqn:Em.
+        * apply zmax_list_spec in Em. destruct Em as [Hin Hall].
+          assert (Hl : In last (sns chs)) by (apply (contig_in chs last _ Hc); lia).
+          rewrite Forall_forall in Hall. specialize (Hall _ Hl). apply Z.ltb_ge in Eu. lia.
+        * apply zmax_list_none in Em. assert (Hl : In last (sns chs)) by (apply (contig_in chs last _ Hc); lia).
+          rewrite Em in Hl. contradiction.
+      + destruct (time_for_hb p now) eqn:Et; unfold gen_hb in E1; injection E1 as <- <-; cbn.
+        * rewrite (contig_first chs last Hc), (contig_last chs last Hc).
+          repeat split; try lia.
+          -- constructor; [|constructor]. split; [reflexivity|]. cbn. constructor; [|constructor]. cbn. lia.
+          -- intros _. exists (toR [SHb 1 last (rp_hbc p + 1)]). split; [left; reflexivity|left; reflexivity].
+        * repeat split; try lia; try constructor.
+          intros _ _ Hper. unfold time_for_hb in Et. apply Z.leb_gt in Et. lia. }
+  destruct H1 as (A & B & C & D & E & F & G & T & U).
+  pose proof (req_loop_live last (S (length (rp_req p1))) cf now chs Hc Hu p1 out1 (rp_hbc p)) as H.
+  rewrite F in H. specialize (H Hreq B C D). lazy zeta in H. rewrite F.
+  destruct H as (H1 & H2 & H3 & H4 & H5); [lia|].
+  assert (Hhs1 : rp_hs (fst (req_loop (S (length (rp_req p))) cf now chs p1 out1)) = last).
+  { pose proof (req_loop_class (rp_fr p1) last (S (length (rp_req p))) cf now chs Hc) as Hq.
+    destruct Hc as [Hc1 Hc2].
+    assert (rp_hs (fst (req_loop (S (length (rp_req p))) cf now chs p1 out1)) = rp_hs p1); [|congruence].
+    clear. generalize (S (length (rp_req p))). intros fu. revert p1 out1.
+    induction fu as [|f IH]; intros p1 out1; cbn [req_loop]; [reflexivity|].
+    destruct (zmin_list (rp_req p1)) as [n|]; [|reflexivity].
+    match goal with |- context [lookup_relevant ?q n chs] => destruct (lookup_relevant q n chs) as [c|] end.
+    - unfold gen_hb. destruct (1 <? nfrags cf c); rewrite IH; reflexivity.
+    - rewrite IH. reflexivity. }
+  repeat split; try assumption; try lia.
+  all: try (intros Hex; rewrite G in H5; specialize (H5 Hex); lia).
+  all: try (intros X1 X2 X3; specialize (T X1 X2 X3); lia).
+  all: try (intros X1 X2; specialize (U X1 X2); lia).
+Qed.
+
+(* ------------------------------------------------------------------ the reader without fragments *)
+Lemma take_while_all {A} (f : A -> bool) l : (forall x, In x l -> f x = true) -> take_while f l = l.
+Proof.
+  induction l as [|x t IH]; intros H; cbn; [reflexivity|]. rewrite (H x (or_introl eq_refl)). f_equal.
+  apply IH. intros y Hy. apply H. right. assumption.
+Qed.
+Lemma find_all_false {A} (f : A -> bool) l : (forall x, In x l -> f x = false) -> find f l = None.
+Proof.
+  induction l as [|x t IH]; intros H; cbn; [reflexivity|]. rewrite (H x (or_introl eq_refl)).
+  apply IH. intros y Hy. apply H. right. assumption.
+Qed.
+
+Lemma acknack_of_nofrag cf w : wp_frags w = [] ->
+  acknack_of cf w =
+  (mkWP (wp_fa w) (wp_la w) (wp_hr w) (wp_hb w) (wp_an w + 1) (wp_nf w + 1) [],
+   [SAck (avail_max w + 1) (firstn 256 (missing w)) (wp_an w + 1)]).
+Proof.
+  intros Hf. unfold acknack_of. cbn [wp_frags wp_hr wp_fa wp_la wp_an wp_nf]. rewrite Hf.
+  unfold min_frag_sn. cbn [wp_frags map zmin_list existsb].
+  rewrite find_all_false by (intros; reflexivity).
+  rewrite take_while_all by (intros; reflexivity). reflexivity.
+Qed.
+
+Lemma on_hb_nofrag cf w f l c : wp_frags w = [] ->
+  on_hb cf w f l c =
+  if wp_hb w <? c then
+    (mkWP f l (wp_hr w) c (wp_an w + 1) (wp_nf w + 1) [],
+     [toW [SAck (Z.max (f - 1) (wp_hr w) + 1) (firstn 256 (zrange (Z.max f (wp_hr w + 1)) (Z.max l (wp_hr w)))) (wp_an w + 1)]])
+  else (w, []).
+Proof.
+  intros Hf. unfold on_hb. destruct (wp_hb w <? c); [|reflexivity].
+  rewrite acknack_of_nofrag by exact Hf. reflexivity.
+Qed.
+
+(* ------------------------------------------------------------------ the live-class invariant *)
+Definition lsub (hbc last wan : Z) (m : submsg) : Prop :=
+  match m with
+  | SHb f l c => 1 <= c <= hbc /\ (c = hbc -> l = last)
+  | SAck b set c => c <= wan
+  | SFrag _ _ | SNack _ _ _ _ => False
+  | _ => True
+  end.
+Definition ldg (hbc last wan : Z) (d : dgram) : Prop := Forall (lsub hbc last wan) (dg_subs d).
+
+(* when the heartbeat count does not decrease, old constraints survive (an old "newest" heartbeat is
+   simply no longer the newest) *)
+Lemma ldg_mono hbc hbc' last wan wan' d :
+  hbc <= hbc' -> wan <= wan' -> ldg hbc last wan d -> ldg hbc' last wan' d.
+Proof.
+  intros A B H. unfold ldg in *. eapply Forall_impl; [|exact H]. intros m.
+  destruct m; cbn; try tauto; try lia.
+Qed.
+
+(* ... also across a write, provided a newer heartbeat has been generated *)
+Lemma ldg_mono_write hbc hbc' last last' wan d :
+  hbc < hbc' -> ldg hbc last wan d -> ldg hbc' last' wan d.
+Proof.
+  intros A H. unfold ldg in *. eapply Forall_impl; [|exact H]. intros m.
+  destruct m; cbn; try tauto; try lia.
+Qed.
+
+Lemma hdg_ldg lo hi last wan d : 0 <= lo -> hdg lo hi last d -> ldg hi last wan d.
+Proof.
+  intros H0 [_ H]. unfold ldg. eapply Forall_impl; [|exact H]. intros m. destruct m; cbn; try tauto.
+  intros (A & B & C). split; [lia|]. intros _. assumption.
+Qed.
+
+Record LOk (strict : bool) (s : state) (p : rproxy) (w : wproxy) : Prop := mkLOk {
+  l_hs : strict = true -> rp_hs p = s_last s;
+  l_ha0 : 0 <= rp_ha p;
+  l_hb : 0 <= wp_hb w <= rp_hbc p;
+  l_an : rp_an p <= wp_an w;
+  l_la : 0 < rp_hbc p -> wp_hb w = rp_hbc p -> wp_la w = s_last s;
+  l_hbt : rp_hbt p <= s_now s;
+  l_frags : wp_frags w = [];
+  l_net : Forall (ldg (rp_hbc p) (s_last s) (wp_an w)) (s_net s)
+}.
+
+Definition LInv (strict : bool) (cf : cfg) (s : state) : Prop :=
+  0 <= s_now s /\ unfrag cf (s_changes s) /\ s_rdead s = false /\
+  (forall r, s_rd s = Some r -> rd_alive r = true) /\
+  forall p r w, s_rp s = Some p -> rp_rel p = true -> s_rd s = Some r -> rd_wp r = Some w -> LOk strict s p w.
+
+Ltac linv_split := split; [|split; [|split; [|split]]].
+
+Lemma LInv_weaken cf s : LInv true cf s -> LInv false cf s.
+Proof.
+  intros (A & B & C & D & E). linv_split; try assumption. intros p r w H1 H2 H3 H4.
+  destruct (E p r w H1 H2 H3 H4). constructor; try assumption. discriminate.
+Qed.
+
+(* --- poke *)
+Lemma LInv_poke cf s b : CInv s -> LInv b cf s -> LInv true cf (poke cf s).
+Proof.
+  intros (HS & HN & [A1 A2 A3]) (L1 & L2 & L3 & L4 & L5). unfold poke.
+  destruct (s_rp s) as [p|] eqn:Ep.
+  2:{ linv_split; try assumption. intros q r w Hq. congruence. }
+  destruct A3 as (Hfr & Hhs & Hreq & Hnet & Hrd).
+  unfold write_message. destruct (rp_rel p) eqn:Erel.
+  2:{ pose proof (write_be_static (S (length (s_changes s))) cf (s_changes s) p []) as Hs.
+      destruct (write_be_loop (S (length (s_changes s))) cf (s_changes s) p []) as [p1 out]. cbn [fst] in Hs.
+      apply static_fr in Hs. destruct Hs as (_ & Hrel & _).
+      linv_split; try assumption. intros q r w Hq Hqrel. cbn in Hq. inversion Hq; subst. congruence. }
+  unfold ROk in Hrd.
+  destruct (s_rd s) as [r|] eqn:Er.
+  2:{ destruct (write_rel cf (s_now s) (s_changes s) p) as [p1 out].
+      linv_split; cbn; try rewrite Er; try assumption. intros q r w _ _ Hr. discriminate. }
+  destruct (rd_wp r) as [w|] eqn:Ew.
+  2:{ destruct (write_rel cf (s_now s) (s_changes s) p) as [p1 out].
+      linv_split; cbn; try rewrite Er; try assumption. intros q r' w _ _ Hr Hw. inversion Hr; subst. congruence. }
+  destruct (L5 p r w eq_refl Erel eq_refl Ew) as [K1 K2 K3 K4 K5 K6 K7 K8].
+  pose proof (write_rel_live (s_last s) cf (s_now s) (s_changes s) p) as H. rewrite A1 in H.
+  specialize (H A2). rewrite <- A1 in H. specialize (H L2 Hhs K2 Hreq). lazy zeta in H.
+  pose proof (write_rel_ha cf (s_now s) (s_changes s) p) as Hha.
+  pose proof (write_rel_class (rp_fr p) (s_last s) cf (s_now s) (s_changes s) p) as Hcl. rewrite A1 in Hcl.
+  specialize (Hcl A2 (proj1 Hfr) eq_refl Hhs Hreq). lazy zeta in Hcl. rewrite <- A1 in Hcl.
+  destruct (write_rel cf (s_now s) (s_changes s) p) as [p1 out]. cbn [fst snd] in *.
+  destruct H as (W1 & W2 & W3 & W4 & W5 & _).
+  destruct Hcl as (_ & _ & _ & Hst & _ & Han & _).
+  linv_split; cbn; try rewrite Er; try assumption.
+  intros q r' w' Hq Hqrel Hr' Hw'. inversion Hq; subst q. inversion Hr'; subst r'.
+  assert (w' = w) by congruence. subst w'.
+  constructor; cbn.
+  - intros _. assumption.
+  - lia.
+  - lia.
+  - lia.
+  - intros H0 Heq. destruct (Z.eq_dec (rp_hbc p) (rp_hbc p1)) as [E|E]; [apply K5; lia|lia].
+  - destruct W5 as [[_ ->]|[_ ->]]; lia.
+  - assumption.
+  - apply Forall_app; split.
+    + eapply Forall_impl; [|exact K8]. intros d. apply ldg_mono; lia.
+    + apply Forall_filter. eapply Forall_impl; [|exact W3]. intros d. apply hdg_ldg. lia.
+Qed.
+
+(* --- delivery to the reader *)
+Definition RL (hbc last : Z) (w : wproxy) : Prop :=
+  0 <= wp_hb w <= hbc /\ (0 < hbc -> wp_hb w = hbc -> wp_la w = last) /\ wp_frags w = [].
+
+Lemma on_data_fields rel w c w1 oc : on_data rel w c = (w1, oc) ->
+  wp_hb w1 = wp_hb w /\ wp_an w1 = wp_an w /\ wp_la w1 = wp_la w /\ (wp_frags w = [] -> wp_frags w1 = []).
+Proof.
+  unfold on_data. destruct rel.
+  - destruct (_ =? _); intros E; inversion E; subst; cbn; repeat split; try reflexivity; intros ->; reflexivity.
+  - destruct (_ <=? _); [|intros E; inversion E; subst; repeat split; auto].
+    destruct (_ <? _); intros E; inversion E; subst; cbn; repeat split; try reflexivity; intros ->; reflexivity.
+Qed.
+
+Lemma deliver_sub_R_live hbc last wan cf r w m r1 out :
+  rd_wp r = Some w -> RL hbc last w -> lsub hbc last wan m ->
+  deliver_sub_R cf r m = (r1, out) ->
+  exists w1, rd_wp r1 = Some w1 /\ rd_alive r1 = rd_alive r /\ rd_rel r1 = rd_rel r /\ RL hbc last w1 /\
+     wp_an w <= wp_an w1 /\ Forall (ldg hbc last (wp_an w1)) out.
+Proof.
+  intros Ew (R1 & R2 & R3) Hm E. unfold deliver_sub_R in E. rewrite Ew in E.
+  destruct m as [c|c k|a b|f l c| |]; cbn in Hm; try contradiction.
+  - destruct (on_data (rd_rel r) w c) as [w1 oc] eqn:Ed. inversion E; subst.
+    destruct (on_data_fields _ _ _ _ _ Ed) as (F1 & F2 & F3 & F4).
+    exists w1. destruct (rd_present_proj r w1 oc) as [P1 P2].
+    refine (conj P1 (conj _ (conj _ (conj _ (conj _ _))))); try (destruct oc; reflexivity); try constructor; try lia.
+    unfold RL. rewrite F1, F3. repeat split; try lia; auto.
+  - inversion E; subst. exists (on_gap w a b). cbn [rd_present rd_wp rd_alive rd_rel].
+    assert (F : wp_hb (on_gap w a b) = wp_hb w /\ wp_an (on_gap w a b) = wp_an w /\ wp_la (on_gap w a b) = wp_la w /\
+                wp_frags (on_gap w a b) = wp_frags w).
+    { unfold on_gap. destruct (_ && _); cbn; tauto. }
+    destruct F as (F1 & F2 & F3 & F4).
+    refine (conj eq_refl (conj eq_refl (conj eq_refl (conj _ (conj _ _))))); try constructor; try lia.
+    unfold RL. rewrite F1, F3, F4. repeat split; try lia; auto.
+  - destruct Hm as [Hc1 Hc2]. destruct (on_hb cf w f l c) as [w1 o] eqn:Eh.
+    rewrite (on_hb_nofrag cf w f l c R3) in Eh.
+    assert (Hr1 : rd_wp r1 = Some w1 /\ rd_alive r1 = rd_alive r /\ rd_rel r1 = rd_rel r /\ out = o).
+    { destruct (hist_received (rd_wp (rd_present r w1 None))); inversion E; subst; cbn; auto. }
+    destruct Hr1 as (Q1 & Q2 & Q3 & ->). exists w1.
+    destruct (Z.ltb_spec (wp_hb w) c) as [Hlt|Hge]; inversion Eh; subst w1 o.
+    + refine (conj Q1 (conj Q2 (conj Q3 (conj _ (conj _ _))))); cbn [wp_an].
+      * unfold RL; cbn. repeat split; try lia.
+      * lia.
+      * constructor; [|constructor]. unfold ldg; cbn. constructor; [cbn; lia|constructor].
+    + refine (conj Q1 (conj Q2 (conj Q3 (conj _ (conj _ _))))); [unfold RL; tauto|lia|constructor].
+  - inversion E; subst. exists w.
+    refine (conj Ew (conj eq_refl (conj eq_refl (conj _ (conj _ _))))); [unfold RL; tauto|lia|constructor].
+Qed.
+
+Lemma deliver_subs_R_live hbc last wan cf l : forall r w acc r1 out,
+  rd_wp r = Some w -> RL hbc last w -> Forall (lsub hbc last wan) l ->
+  Forall (ldg hbc last (wp_an w)) acc ->
+  deliver_subs_R cf r l acc = (r1, out) ->
+  exists w1, rd_wp r1 = Some w1 /\ rd_alive r1 = rd_alive r /\ rd_rel r1 = rd_rel r /\ RL hbc last w1 /\
+     wp_an w <= wp_an w1 /\ Forall (ldg hbc last (wp_an w1)) out.
+Proof.
+  induction l as [|m t IH]; intros r w acc r1 out Ew HR Hl Ha E; cbn in E.
+  - inversion E; subst. exists w. refine (conj Ew (conj eq_refl (conj eq_refl (conj HR (conj _ Ha))))). lia.
+  - inversion Hl; subst. destruct (deliver_sub_R cf r m) as [r' o] eqn:Em.
+    destruct (deliver_sub_R_live hbc last wan cf r w m r' o Ew HR H1 Em) as (w' & A & B & B' & C & D & F).
+    assert (Hacc : Forall (ldg hbc last (wp_an w')) (acc ++ o)).
+    { apply Forall_app; split; [|assumption]. eapply Forall_impl; [|exact Ha]. intros d. apply ldg_mono; lia. }
+    destruct (IH r' w' (acc ++ o) r1 out A C H2 Hacc E) as (w1 & A1 & B1 & B1' & C1 & D1 & F1).
+    exists w1. refine (conj A1 (conj _ (conj _ (conj C1 (conj _ F1))))); try congruence. lia.
+Qed.
+
+(* --- delivery of a queued datagram to the reader *)
+Lemma LOk_deliver_R cf s b p r w d rest r1 out :
+  s_rdead s = false -> LOk b s p w -> rd_wp r = Some w -> In d (s_net s) ->
+  (forall x, In x rest -> In x (s_net s)) ->
+  deliver_subs_R cf r (dg_subs d) [] = (r1, out) ->
+  exists w1, rd_wp r1 = Some w1 /\ rd_alive r1 = rd_alive r /\ rd_rel r1 = rd_rel r /\
+    LOk b (send (set_rd (set_net s rest) (Some r1)) out) p w1.
+Proof.
+  intros Hdead [K1 K2 K3 K4 K5 K6 K7 K8] Ew Hd Hrest E.
+  assert (Hsubs : Forall (lsub (rp_hbc p) (s_last s) (wp_an w)) (dg_subs d)).
+  { rewrite Forall_forall in K8. apply (K8 d Hd). }
+  destruct (deliver_subs_R_live (rp_hbc p) (s_last s) (wp_an w) cf (dg_subs d) r w [] r1 out Ew
+              (conj K3 (conj K5 K7)) Hsubs (Forall_nil _) E) as (w1 & A & B & B' & (C1 & C2 & C3) & D & F).
+  exists w1. refine (conj A (conj B (conj B' _))). constructor; cbn; try assumption; try lia.
+  apply Forall_app; split.
+  - rewrite Forall_forall in *. intros x Hx. eapply ldg_mono; [apply Z.le_refl|exact D|]. apply K8. apply Hrest. assumption.
+  - apply Forall_filter. assumption.
+Qed.
+
+(* --- delivery of a submessage to the writer *)
+Lemma LOk_deliver_sub_W cf s b p w m :
+  CInv s -> unfrag cf (s_changes s) -> s_rdead s = false ->
+  s_rp s = Some p -> rp_rel p = true -> LOk b s p w ->
+  nsub (rp_fr p) (s_last s) (hr_of s) m -> lsub (rp_hbc p) (s_last s) (wp_an w) m ->
+  exists q, s_rp (deliver_sub_W cf s m) = Some q /\ rp_static q = rp_static p /\
+            LOk b (deliver_sub_W cf s m) q w /\ rp_hbc p <= rp_hbc q.
+Proof.
+  intros (HS & HN & [A1 A2 A3]) Hu Hdead Ep Hrel [K1 K2 K3 K4 K5 K6 K7 K8] Hn Hl.
+  rewrite Ep in A3. destruct A3 as (Hfr & Hhs & Hreq & Hnet & Hrd).
+  unfold deliver_sub_W. rewrite Ep.
+  destruct m as [c|c k|a b0|f l c|base set count|sn base set count]; cbn in Hl; try contradiction;
+    try (exists p; refine (conj Ep (conj eq_refl (conj _ _))); [constructor; assumption|lia]).
+  cbn in Hn. destruct Hn as [Hset _].
+  unfold on_acknack. replace (rp_rel p && (rp_an p <? count)) with (rp_an p <? count) by (rewrite Hrel; reflexivity).
+  destruct (Z.ltb_spec (rp_an p) count) as [Hacc|Hnacc].
+  2:{ exists p. cbn. refine (conj eq_refl (conj eq_refl (conj _ _))); [|lia].
+      constructor; cbn; try assumption. rewrite app_nil_r. assumption. }
+  lazy beta iota zeta.
+  set (p1 := mkRP (rp_rel p) (rp_tl p) (rp_hs p) (if rp_ha p <? base - 1 then base - 1 else rp_ha p)
+                  (req_add (rp_req p) set) (rp_fr p) count (rp_nf p) (rp_hbc p) (rp_hbt p)).
+  assert (Hha1 : 0 <= rp_ha p1) by (cbn; destruct (rp_ha p <? base - 1) eqn:E; [apply Z.ltb_lt in E; lia|assumption]).
+  pose proof (write_rel_live (s_last s) cf (s_now s) (s_changes s) p1) as H. rewrite A1 in H.
+  specialize (H A2). rewrite <- A1 in H. specialize (H Hu Hhs Hha1 (req_add_bound _ _ _ Hreq Hset)). lazy zeta in H.
+  pose proof (write_rel_ha cf (s_now s) (s_changes s) p1) as Hha.
+  pose proof (write_rel_class (rp_fr p) (s_last s) cf (s_now s) (s_changes s) p1) as Hcl. rewrite A1 in Hcl.
+  specialize (Hcl A2 (proj1 Hfr) eq_refl Hhs (req_add_bound _ _ _ Hreq Hset)). lazy zeta in Hcl. rewrite <- A1 in Hcl.
+  destruct (write_rel cf (s_now s) (s_changes s) p1) as [p2 out]. cbn [fst snd] in *.
+  destruct H as (W1 & W2 & W3 & W4 & W5 & _).
+  destruct Hcl as (_ & _ & _ & Hst & _ & Han & _).
+  exists p2.
+  assert (E1 : rp_hbc p1 = rp_hbc p) by reflexivity.
+  assert (E2 : rp_hbt p1 = rp_hbt p) by reflexivity.
+  assert (E3 : rp_an p1 = count) by reflexivity.
+  assert (HL : LOk b (send (set_rp s (Some p2)) out) p2 w).
+  { constructor; cbn.
+    - intros _. assumption.
+    - lia.
+    - lia.
+    - lia.
+    - intros H0 Heq. destruct (Z.eq_dec (rp_hbc p) (rp_hbc p2)) as [E|E]; [apply K5; lia|lia].
+    - destruct W5 as [[_ ->]|[_ ->]]; lia.
+    - assumption.
+    - apply Forall_app; split.
+      + eapply Forall_impl; [|exact K8]. intros d. apply ldg_mono; lia.
+      + apply Forall_filter. eapply Forall_impl; [|exact W3]. intros d. apply hdg_ldg. lia. }
+  destruct (is_acked (Some p2) (s_last s)).
+  - refine (conj eq_refl (conj Hst (conj _ _))); [destruct HL; constructor; assumption|rewrite <- E1; exact W2].
+  - refine (conj eq_refl (conj Hst (conj HL _))). rewrite <- E1; exact W2.
+Qed.
+
+(* ------------------------------------------------------------------ state-level preservation *)
+Definition Live (b : bool) (cf : cfg) (s : state) : Prop := CInv s /\ LInv b cf s.
+
+Lemma LOk_subnet b s p w n : LOk b s p w -> (forall x, In x n -> In x (s_net s)) -> LOk b (set_net s n) p w.
+Proof.
+  intros [K1 K2 K3 K4 K5 K6 K7 K8] Hn. constructor; cbn; try assumption.
+  rewrite Forall_forall in *. intros x Hx. apply K8. apply Hn. assumption.
+Qed.
+
+Lemma fold_W_frame cf l : forall s,
+  s_rd (fold_left (deliver_sub_W cf) l s) = s_rd s /\ s_rdead (fold_left (deliver_sub_W cf) l s) = s_rdead s.
+Proof.
+  induction l as [|m t IH]; intros s; cbn [fold_left]; [tauto|].
+  destruct (IH (deliver_sub_W cf s m)) as [A B]. destruct (deliver_sub_W_frame cf s m) as (F1 & F2 & _).
+  split; congruence.
+Qed.
+
+Lemma Live_fold_W cf b l : forall s, Live b cf s ->
+  (forall p, s_rp s = Some p -> Forall (nsub (rp_fr p) (s_last s) (hr_of s)) l) ->
+  (forall p r w, s_rp s = Some p -> rp_rel p = true -> s_rd s = Some r -> rd_wp r = Some w ->
+     Forall (lsub (rp_hbc p) (s_last s) (wp_an w)) l) ->
+  Live b cf (fold_left (deliver_sub_W cf) l s).
+Proof.
+  induction l as [|m t IH]; intros s HL Hn Hl; cbn [fold_left]; [assumption|].
+  destruct HL as [HC (L1 & L2 & L3 & L4 & L5)].
+  assert (HC1 : CInv (deliver_sub_W cf s m)).
+  { apply CInv_deliver_sub_W; [assumption|]. intros p Ep. specialize (Hn p Ep). inversion Hn; assumption. }
+  destruct (core_proj _ _ (deliver_sub_W_core cf s m)) as (C1 & C2 & _ & C4 & C5).
+  destruct (deliver_sub_W_frame cf s m) as (F1 & F2 & F3).
+  apply IH.
+  - split; [assumption|]. linv_split; try congruence.
+    + rewrite C1. assumption.
+    + intros r Hr. apply L4. congruence.
+    + intros p' r w Ep' Hrel' Er Ew. rewrite F1 in Er.
+      destruct (s_rp s) as [p|] eqn:Ep.
+      2:{ assert (Hs : deliver_sub_W cf s m = s) by (unfold deliver_sub_W; rewrite Ep; reflexivity).
+          rewrite Hs in Ep'. congruence. }
+      destruct (F3 p eq_refl) as [q [Eq Hst]]. assert (p' = q) by congruence. subst p'.
+      apply static_fr in Hst. destruct Hst as (_ & Hrelq & _).
+      assert (Hrel : rp_rel p = true) by congruence.
+      specialize (Hn p eq_refl). inversion Hn; subst.
+      specialize (Hl p r w eq_refl Hrel Er Ew). inversion Hl; subst.
+      destruct (LOk_deliver_sub_W cf s b p w m HC L2 L3 Ep Hrel (L5 p r w eq_refl Hrel Er Ew) H1 H3) as (q' & Eq' & _ & HLq & _).
+      assert (q' = q) by congruence. subst q'. exact HLq.
+  - intros q Eq. rewrite C2. unfold hr_of. rewrite F1. fold (hr_of s).
+    destruct (s_rp s) as [p|] eqn:Ep.
+    2:{ assert (Hs : deliver_sub_W cf s m = s) by (unfold deliver_sub_W; rewrite Ep; reflexivity).
+        rewrite Hs in Eq. congruence. }
+    destruct (F3 p eq_refl) as [q' [Eq' Hst]]. assert (q' = q) by congruence. subst q'.
+    apply static_fr in Hst. destruct Hst as (Hfr & _). rewrite Hfr.
+    specialize (Hn p eq_refl). inversion Hn; assumption.
+  - intros q r w Eq Hrelq Er Ew. rewrite F1 in Er. rewrite C2.
+    destruct (s_rp s) as [p|] eqn:Ep.
+    2:{ assert (Hs : deliver_sub_W cf s m = s) by (unfold deliver_sub_W; rewrite Ep; reflexivity).
+        rewrite Hs in Eq. congruence. }
+    destruct (F3 p eq_refl) as [q' [Eq' Hst]]. assert (q' = q) by congruence. subst q'.
+    apply static_fr in Hst. destruct Hst as (_ & Hrelq' & _).
+    assert (Hrel : rp_rel p = true) by congruence.
+    pose proof (Hn p eq_refl) as Hn'. inversion Hn'; subst.
+    pose proof (Hl p r w eq_refl Hrel Er Ew) as Hl'. inversion Hl'; subst.
+    destruct (LOk_deliver_sub_W cf s b p w m HC L2 L3 Ep Hrel (L5 p r w eq_refl Hrel Er Ew) H1 H3) as (q' & Eq'' & _ & _ & Hmono).
+    assert (q' = q) by congruence. subst q'.
+    eapply Forall_impl; [|exact H4]. intros x Hx.
+    destruct x; cbn in *; try tauto; try lia.
+Qed.
+
+Lemma Live_deliver cf b s d rest : Live b cf s -> In d (s_net s) -> (forall x, In x rest -> In x (s_net s)) ->
+  Live b cf (deliver_dgram cf (set_net s rest) d).
+Proof.
+  intros [HC HL] Hd Hrest. split; [apply CInv_deliver; assumption|].
+  pose proof HC as (HS & HN & [A1 A2 A3]). pose proof HL as (L1 & L2 & L3 & L4 & L5).
+  assert (HLr : Live b cf (set_net s rest)).
+  { split.
+    - destruct HC as (X & Y & Z). split; [|split].
+      + apply SInv_set_net; [assumption|]. pose proof (si_net s X) as Hn. rewrite Forall_forall in *. auto.
+      + intros Hn. cbn in *. destruct (Y Hn) as [E1 E2]. rewrite E1 in Hd. contradiction.
+      + apply AInv_set_net; assumption.
+    - linv_split; try assumption. intros p r w Ep Hrel Er Ew. apply LOk_subnet; [|assumption]. apply (L5 p r w); assumption. }
+  unfold deliver_dgram. destruct (dg_toR d) eqn:Edir.
+  - cbn [s_rdead set_net]. rewrite L3. cbn [s_rd set_net].
+    destruct (s_rd s) as [r|] eqn:Er; [|apply (proj2 HLr)].
+    rewrite (L4 r eq_refl).
+    destruct (deliver_subs_R cf r (dg_subs d) []) as [r1 out] eqn:E.
+    destruct (rd_wp r) as [w|] eqn:Ew.
+    2:{ rewrite (deliver_subs_R_nowp cf r (dg_subs d) [] Ew) in E. inversion E; subst r1 out.
+        linv_split; cbn; try assumption.
+        all: try (intros r' Hr'; injection Hr' as <-; exact (L4 r eq_refl)).
+        intros p r' w Ep Hrel Er' Ew'. injection Er' as <-. congruence. }
+    destruct (s_rp s) as [p|] eqn:Ep.
+    2:{ (* no proxy: nothing to show for the proxy part *)
+      assert (Halive : rd_alive r1 = true).
+      { clear - E L4 Er. (* the reader stays alive: deliver_sub_R never changes rd_alive *)
+        assert (G : forall l r acc r1 out, deliver_subs_R cf r l acc = (r1, out) -> rd_alive r1 = rd_alive r).
+        { induction l as [|m t IH]; intros r0 acc r2 out0 E0; cbn in E0; [inversion E0; reflexivity|].
+          destruct (deliver_sub_R cf r0 m) as [r' o] eqn:Em. apply IH in E0. rewrite E0.
+          unfold deliver_sub_R in Em. destruct (rd_wp r0) as [w0|]; [|inversion Em; reflexivity].
+          destruct m; try (inversion Em; reflexivity).
+          - destruct (on_data _ _ _) as [w1 oc]. inversion Em. destruct oc; reflexivity.
+          - destruct (on_frag _ _ _ _ _) as [w1 oc]. inversion Em. destruct oc; reflexivity.
+          - destruct (on_hb _ _ _ _ _) as [w1 o1]. destruct (hist_received _); inversion Em; reflexivity. }
+        rewrite (G _ _ _ _ _ E). exact (L4 r eq_refl). }
+      linv_split; cbn; try assumption.
+      all: try (intros r' Hr'; injection Hr' as <-; assumption).
+      intros q r' w' Eq. congruence. }
+    destruct (rp_rel p) eqn:Erel.
+    2:{ assert (Halive : rd_alive r1 = true).
+        { assert (G : forall l r acc r1 out, deliver_subs_R cf r l acc = (r1, out) -> rd_alive r1 = rd_alive r).
+          { induction l as [|m t IH]; intros r0 acc r2 out0 E0; cbn in E0; [inversion E0; reflexivity|].
+            destruct (deliver_sub_R cf r0 m) as [r' o] eqn:Em. apply IH in E0. rewrite E0.
+            unfold deliver_sub_R in Em. destruct (rd_wp r0) as [w0|]; [|inversion Em; reflexivity].
+            destruct m; try (inversion Em; reflexivity).
+            - destruct (on_data _ _ _) as [w1 oc]. inversion Em. destruct oc; reflexivity.
+            - destruct (on_frag _ _ _ _ _) as [w1 oc]. inversion Em. destruct oc; reflexivity.
+            - destruct (on_hb _ _ _ _ _) as [w1 o1]. destruct (hist_received _); inversion Em; reflexivity. }
+          rewrite (G _ _ _ _ _ E). exact (L4 r eq_refl). }
+        linv_split; cbn; try assumption.
+        all: try (intros r' Hr'; injection Hr' as <-; assumption).
+        intros q r' w' Eq Hq. congruence. }
+    pose proof (L5 p r w eq_refl Erel eq_refl Ew) as HLOk.
+    destruct (LOk_deliver_R cf s b p r w d rest r1 out L3 HLOk Ew Hd Hrest E) as (w1 & Q1 & Q2 & Q3 & Q4).
+    linv_split; cbn; try assumption.
+    all: try (intros r' Hr'; injection Hr' as <-; rewrite Q2; exact (L4 r eq_refl)).
+    intros q r' w' Eq Hq Er' Ew'. assert (q = p) by congruence. subst q. injection Er' as <-.
+    assert (w' = w1) by congruence. subst w'. exact Q4.
+  - refine (proj2 (Live_fold_W cf b (dg_subs d) (set_net s rest) HLr _ _)).
+    + intros p Ep. cbn in Ep. rewrite Ep in A3. destruct A3 as (_ & _ & _ & Hnet & _).
+      rewrite Forall_forall in Hnet. apply (Hnet d Hd).
+    + intros p r w Ep Hrel Er Ew. cbn in *.
+      destruct (L5 p r w Ep Hrel Er Ew) as [_ _ _ _ _ _ _ K8]. rewrite Forall_forall in K8. apply (K8 d Hd).
+Qed.
+
+Lemma Live_poke cf b s : Live b cf s -> Live true cf (poke cf s).
+Proof. intros [HC HL]. split; [apply CInv_poke; assumption|eapply LInv_poke; eassumption]. Qed.
+
+Lemma Live_pump cf fuel : forall s n, Live true cf s -> Live true cf (fst (pump fuel cf s n)).
+Proof.
+  induction fuel as [|f IH]; intros s n H; cbn [pump]; [assumption|].
+  destruct (s_net s) as [|d t] eqn:En; [assumption|].
+  apply IH. apply Live_poke with (b := true). apply Live_deliver; [assumption|rewrite En; left; reflexivity|].
+  intros x Hx. rewrite En. right. assumption.
+Qed.
+
+(* --- nothing ever looks at the queue: an extra queued copy commutes with every operation *)
+Definition add_front (x : dgram) (s : state) : state := set_net s (x :: s_net s).
+
+Lemma send_add_front x s out : send (add_front x s) out = add_front x (send s out).
+Proof. reflexivity. Qed.
+
+Lemma poke_add_front cf x s : poke cf (add_front x s) = add_front x (poke cf s).
+Proof.
+  unfold poke. cbn [s_rp add_front set_net s_now s_changes]. destruct (s_rp s); [|reflexivity].
+  destruct (write_message _ _ _ _). reflexivity.
+Qed.
+
+Lemma deliver_sub_W_add_front cf x s m : deliver_sub_W cf (add_front x s) m = add_front x (deliver_sub_W cf s m).
+Proof.
+  unfold deliver_sub_W. cbn [s_rp add_front set_net s_now s_changes s_last]. destruct (s_rp s); [|reflexivity].
+  destruct m; try reflexivity.
+  - destruct (on_acknack _ _ _ _ _ _ _) as [[p1 o] sm]. destruct (sm && _); reflexivity.
+  - destruct (on_nackfrag _ _ _ _ _ _ _). reflexivity.
+Qed.
+
+Lemma deliver_dgram_add_front cf x s d : deliver_dgram cf (add_front x s) d = add_front x (deliver_dgram cf s d).
+Proof.
+  unfold deliver_dgram. destruct (dg_toR d).
+  - cbn [s_rdead s_rd add_front set_net]. destruct (s_rdead s); [reflexivity|].
+    destruct (s_rd s) as [r|]; [|reflexivity]. destruct (rd_alive r); [|reflexivity].
+    destruct (deliver_subs_R _ _ _ _). reflexivity.
+  - revert s. induction (dg_subs d) as [|m t IH]; intros s; cbn [fold_left]; [reflexivity|].
+    rewrite deliver_sub_W_add_front. apply IH.
+Qed.
+
+Lemma set_net_add_front x s : set_net (add_front x s) (s_net s) = s.
+Proof. destruct s. reflexivity. Qed.
+
+(* Live only constrains the elements of the queue *)
+Lemma Live_same_elements cf b s n : Live b cf s -> (forall x, In x n -> In x (s_net s)) ->
+  (s_rd s = None -> n = []) -> Live b cf (set_net s n).
+Proof.
+  intros [(HS & HN & HA) (L1 & L2 & L3 & L4 & L5)] Hn Hnil. split.
+  - split; [|split].
+    + apply SInv_set_net; [assumption|]. pose proof (si_net s HS) as H. rewrite Forall_forall in *. auto.
+    + intros Hr. cbn in *. destruct (HN Hr) as [_ E2]. split; [auto|assumption].
+    + apply AInv_set_net; assumption.
+  - linv_split; try assumption. intros p r w Ep Hrel Er Ew. apply LOk_subnet; [|assumption]. apply (L5 p r w); assumption.
+Qed.
+
+Lemma Live_dup cf b s d rest : Live b cf s -> In d (s_net s) -> (forall x, In x rest -> In x (s_net s)) ->
+  Live b cf (deliver_dgram cf (poke cf (deliver_dgram cf (set_net s rest) d)) d).
+Proof.
+  intros HL Hd Hrest.
+  (* the same run with a second copy of d queued in front *)
+  assert (H0 : Live b cf (set_net s (d :: rest))).
+  { apply Live_same_elements; [assumption| |].
+    - intros x [<-|Hx]; auto.
+    - intros Hr. destruct HL as [(_ & HN & _) _]. destruct (HN Hr) as [E _]. rewrite E in Hd. contradiction. }
+  assert (H1 : Live b cf (deliver_dgram cf (set_net (set_net s (d :: rest)) (d :: rest)) d)).
+  { apply Live_deliver; [assumption|left; reflexivity|auto]. }
+  assert (E1 : set_net (set_net s (d :: rest)) (d :: rest) = add_front d (set_net s rest)) by reflexivity.
+  rewrite E1, deliver_dgram_add_front in H1.
+  apply Live_poke in H1. rewrite poke_add_front in H1.
+  set (s2 := poke cf (deliver_dgram cf (set_net s rest) d)) in *.
+  destruct b.
+  - pose proof (Live_deliver cf true (add_front d s2) d (s_net s2) H1 (or_introl eq_refl)) as H2.
+    rewrite set_net_add_front in H2. apply H2. intros x Hx. right. assumption.
+  - apply Live_poke in HL. (* not needed: keep the weaker flag *)
+    pose proof (Live_deliver cf true (add_front d s2) d (s_net s2) H1 (or_introl eq_refl)) as H2.
+    rewrite set_net_add_front in H2. destruct H2 as [X Y]; [intros x Hx; right; assumption|].
+    split; [assumption|apply LInv_weaken; assumption].
+Qed.
+
+(* --- the class of actions *)
+Definition live_act (cf : cfg) (a : action) : bool :=
+  match a with
+  | ARemove _ | ADelReader | ADelPart => false
+  | AWrite _ len _ => (0 <=? len) && (len <=? fsz cf)
+  | _ => true
+  end.
+
+Lemma live_not_remove cf a : live_act cf a = true -> not_remove a = true.
+Proof. destruct a; cbn; auto. Qed.
+
+Lemma nfrags_le1 cf sn k len sum : 0 < fsz cf -> 0 <= len <= fsz cf -> nfrags cf (mkCh sn k len sum) <= 1.
+Proof.
+  intros Hf Hl. unfold nfrags, div_ceil. cbn [c_len].
+  destruct (Z.eq_dec len (fsz cf)) as [->|Hne].
+  - rewrite Z.div_same by lia. rewrite Z.mod_same by lia. cbn. lia.
+  - rewrite Z.div_small by lia. destruct (len mod fsz cf =? 0); lia.
+Qed.
+
+Lemma LInv_write cf s key len sum : 0 < fsz cf -> depth cf = 0 -> 0 <= len <= fsz cf ->
+  Live true cf s -> Live true cf (fst (step cf s (AWrite key len sum))).
+Proof.
+  intros Hf Hd Hlen [HC HL]. split; [apply CInv_step; [assumption|reflexivity|assumption]|].
+  pose proof (CInv_act cf s (AWrite key len sum) Hd eq_refl HC) as HC1.
+  unfold step in *. cbn [act] in *.
+  pose proof (do_write_frame cf s key len sum) as (F1 & F2 & F3 & F4 & F5 & F6 & F7).
+  pose proof (do_write_spec cf s key len sum) as Hw.
+  destruct (do_write cf s key len sum) as [s1 code]. cbn [fst snd] in *.
+  destruct Hw as [[-> _]|[chs1 (W1 & W2 & W3 & W4 & W5 & W6)]].
+  { eapply LInv_poke; eassumption. }
+  specialize (W6 Hd). subst chs1.
+  destruct HL as (L1 & L2 & L3 & L4 & L5).
+  assert (Hu1 : unfrag cf (s_changes s1)).
+  { rewrite W2. intros c Hc. apply in_app_or in Hc. destruct Hc as [Hc|[<-|[]]]; [apply L2; assumption|].
+    apply nfrags_le1; assumption. }
+  pose proof HC as (HS & HN & [A1 A2 A3]). pose proof HC1 as (HS1 & HN1 & [B1 B2 B3]).
+  assert (Hun : 0 <= s_now s1 /\ s_rdead s1 = false /\ (forall r, s_rd s1 = Some r -> rd_alive r = true)).
+  { rewrite F4, F7, F2. auto. }
+  destruct Hun as (U1 & U3 & U4).
+  unfold poke. rewrite F1.
+  destruct (s_rp s) as [p|] eqn:Ep.
+  2:{ linv_split; try assumption. intros q r w Eq. congruence. }
+  rewrite F1 in B3. destruct B3 as (Hfr1 & Hhs1 & Hreq1 & Hnet1 & Hrd1). destruct A3 as (Hfr & Hhs & Hreq & Hnet & Hrd).
+  unfold write_message. destruct (rp_rel p) eqn:Erel.
+  2:{ pose proof (write_be_static (S (length (s_changes s1))) cf (s_changes s1) p []) as Hs.
+      destruct (write_be_loop (S (length (s_changes s1))) cf (s_changes s1) p []) as [p1 out]. cbn [fst] in Hs.
+      apply static_fr in Hs. destruct Hs as (_ & Hrel & _).
+      linv_split; cbn; try assumption.
+      intros q r w Eq Hq. injection Eq as <-. congruence. }
+  destruct (s_rd s) as [r|] eqn:Er.
+  2:{ destruct (write_rel cf (s_now s1) (s_changes s1) p) as [p1 out].
+      linv_split; cbn; try assumption. intros q r w _ _ Hr. congruence. }
+  destruct (rd_wp r) as [w|] eqn:Ew.
+  2:{ destruct (write_rel cf (s_now s1) (s_changes s1) p) as [p1 out].
+      linv_split; cbn; try assumption.
+      intros q r' w _ _ Hr Hw. assert (r' = r) by congruence. subst r'. congruence. }
+  destruct (L5 p r w eq_refl Erel eq_refl Ew) as [K1 K2 K3 K4 K5 K6 K7 K8].
+  pose proof (write_rel_live (s_last s1) cf (s_now s1) (s_changes s1) p) as H. rewrite B1 in H.
+  specialize (H B2). rewrite <- B1 in H. specialize (H Hu1 Hhs1 K2 Hreq1). lazy zeta in H.
+  pose proof (write_rel_ha cf (s_now s1) (s_changes s1) p) as Hha.
+  pose proof (write_rel_class (rp_fr p) (s_last s1) cf (s_now s1) (s_changes s1) p) as Hcl. rewrite B1 in Hcl.
+  specialize (Hcl B2 (proj1 Hfr1) eq_refl Hhs1 Hreq1). lazy zeta in Hcl. rewrite <- B1 in Hcl.
+  destruct (write_rel cf (s_now s1) (s_changes s1) p) as [p1 out]. cbn [fst snd] in *.
+  destruct H as (V1 & V2 & V3 & V4 & V5 & _ & _ & V8).
+  destruct Hcl as (_ & _ & _ & Hst & _ & Han & _).
+  assert (Hstrict : rp_hbc p < rp_hbc p1) by (apply V8; [rewrite (K1 eq_refl); lia|lia]).
+  linv_split; cbn; try assumption.
+  intros q r' w' Eq Hq Er' Ew'. injection Eq as <-. assert (r' = r) by congruence. subst r'.
+  assert (w' = w) by congruence. subst w'.
+  { constructor; cbn.
+    + intros _. assumption.
+    + lia.
+    + lia.
+    + lia.
+    + intros H0 Heq. lia.
+    + destruct V5 as [[_ ->]|[_ ->]]; lia.
+    + assumption.
     + apply Forall_app; split.
-      * eapply Forall_impl; [|exact Ha]. intros d. apply hdg_mono; lia.
-      * constructor; [|constructor]. split; [reflexivity|]. cbn. constructor; [exact I|]. constructor; [|constructor]. cbn.
-        subst p0; cbn. lia.
-    + intros _. exists (toR [SData c; SHb 1 last (rp_hbc p0 + 1)]). split; [apply in_or_app; right; left; reflexivity|].
-      cbn. right. left. reflexivity.
-    + subst p0; cbn in *. repeat split; try assumption; try lia.
-      destruct D as [D|D]; [right; exact D|right; exact D].
-  - pose proof El as El'. apply lookup_relevant_none in El'; [|assumption]. subst p0. cbn [rp_fr set_req] in El'.
-    specialize (IH (set_req p (filter (fun s => negb (s =? n)) (rp_req p))) (acc ++ [toR [SGap n (n + 1)]]) lo).
-    cbn [rp_req rp_hbc rp_hbt rp_fr set_req fst snd] in IH.
-    destruct IH as (A & B & C & D & E); try lia; try assumption.
-    + apply Forall_app; split; [assumption|].
-      constructor; [|constructor]. split; [reflexivity|]. cbn. constructor; [exact I|constructor].
-    + intros Hl. destruct (Hhb Hl) as [d [Hd Hs]]. exists d. split; [apply in_or_app; left; assumption|assumption].
-    + repeat split; try assumption.
-      intros [m [Hm Hfr]]. apply E. exists m. split; [|assumption].
-      apply filter_In. split; [assumption|]. apply negb_true_iff. apply Z.eqb_neq. lia.
+      * rewrite F3. eapply Forall_impl; [|exact K8]. intros d. apply ldg_mono_write. assumption.
+      * apply Forall_filter. eapply Forall_impl; [|exact V3]. intros d. apply hdg_ldg. lia. }
+Qed.
+
+(* states that differ only in fields the live invariant does not look at *)
+Lemma LInv_ext cf b s s' :
+  LInv b cf s -> s_now s <= s_now s' ->
+  s_changes s' = s_changes s -> s_last s' = s_last s -> s_rp s' = s_rp s -> s_rdead s' = s_rdead s ->
+  s_net s' = s_net s ->
+  (forall r', s_rd s' = Some r' -> exists r, s_rd s = Some r /\ rd_alive r' = rd_alive r /\ rd_wp r' = rd_wp r) ->
+  LInv b cf s'.
+Proof.
+  intros (L1 & L2 & L3 & L4 & L5) Hnow Hc Hl Hp Hd Hn Hr. linv_split.
+  - lia.
+  - rewrite Hc. assumption.
+  - congruence.
+  - intros r' Hr'. destruct (Hr r' Hr') as (r & E1 & E2 & _). rewrite E2. apply L4. assumption.
+  - intros p r' w Ep Hrel Er' Ew. destruct (Hr r' Er') as (r & E1 & _ & E3).
+    rewrite Hp in Ep. rewrite E3 in Ew. destruct (L5 p r w Ep Hrel E1 Ew) as [K1 K2 K3 K4 K5 K6 K7 K8].
+    constructor; try assumption; try (rewrite Hl; assumption); try lia. rewrite Hl, Hn. assumption.
+Qed.
+
+Lemma Live_step cf s a : 0 < fsz cf -> depth cf = 0 -> live_act cf a = true ->
+  Live true cf s -> Live true cf (fst (step cf s a)).
+Proof.
+  intros Hf Hd Ha HL. pose proof HL as [HC HLI].
+  destruct a; try discriminate.
+  - (* AWrite *) cbn in Ha. apply andb_prop in Ha. destruct Ha as [H1 H2]. apply Z.leb_le in H1. apply Z.leb_le in H2.
+    apply LInv_write; try assumption. lia.
+  - (* ATick *) unfold step. cbn [act fst]. apply Live_poke with (b := true). split.
+    + apply (CInv_act cf s ATick Hd eq_refl HC).
+    + eapply LInv_ext; [exact HLI|cbn; unfold tick_ms; lia|reflexivity|reflexivity|reflexivity|reflexivity|reflexivity|].
+      intros r' Hr'. exists r'. auto.
+  - (* ADeliver *) unfold step. cbn [act]. destruct (nth_error (s_net s) i) as [d|] eqn:E; cbn [fst].
+    + apply Live_poke with (b := true). apply Live_deliver; [assumption|eapply nth_error_In; eassumption|].
+      intros x Hx. eapply remove_nth_in. exact Hx.
+    + apply Live_poke with (b := true). assumption.
+  - (* ADrop *) unfold step. cbn [act]. destruct (nth_error (s_net s) i) as [d|] eqn:E; cbn [fst].
+    + apply Live_poke with (b := true). apply Live_same_elements; [assumption| |].
+      * intros x Hx. eapply remove_nth_in. exact Hx.
+      * intros Hr. destruct HC as (_ & HN & _). destruct (HN Hr) as [En _]. rewrite En in E. destruct i; discriminate.
+    + apply Live_poke with (b := true). assumption.
+  - (* ADup *) unfold step. cbn [act]. destruct (nth_error (s_net s) i) as [d|] eqn:E; cbn [fst].
+    + apply Live_poke with (b := true). apply Live_dup; [assumption|eapply nth_error_In; eassumption|].
+      intros x Hx. eapply remove_nth_in. exact Hx.
+    + apply Live_poke with (b := true). assumption.
+  - (* APump *) unfold step. cbn [act]. pose proof (Live_pump cf pump_fuel s 0 HL) as Hp.
+    destruct (pump pump_fuel cf s 0) as [s1 n]. cbn [fst] in *. apply Live_poke with (b := true). assumption.
+  - (* ATake *) unfold step. cbn [act]. destruct (s_rd s) as [r|] eqn:Er; [|cbn [fst]; apply Live_poke with (b := true); assumption].
+    destruct (rd_alive r) eqn:Eal; cbn [fst]; [|apply Live_poke with (b := true); assumption].
+    apply Live_poke with (b := true). split.
+    + pose proof (CInv_act cf s ATake Hd eq_refl HC) as H. cbn [act] in H. rewrite Er, Eal in H. exact H.
+    + eapply LInv_ext; [exact HLI|cbn; lia|reflexivity|reflexivity|reflexivity|reflexivity|reflexivity|].
+      intros r' Hr'. cbn in Hr'. injection Hr' as <-. exists r. cbn. auto.
+  - (* AMatch *) unfold step. cbn [act].
+    destruct (s_rd s) as [r|] eqn:Er; cbn [fst]; [apply Live_poke with (b := true); assumption|].
+    destruct HC as (HS & HN & HA). destruct (HN Er) as [Hnet Hrp]. rewrite Hrp. rewrite orb_false_r.
+    destruct HLI as (L1 & L2 & L3 & L4 & L5). rewrite L3.
+    destruct (rxo_ok cf rel tl); cbn [fst].
+    + apply Live_poke with (b := true). apply Live_poke with (b := false). split.
+      * split; [|split].
+        -- destruct HS as [S1 S2 S3 S4 S5]. constructor; cbn; try assumption.
+           unfold ARInv, RInv, WOk; cbn. repeat split; constructor.
+        -- intros Hn. cbn in Hn. discriminate.
+        -- destruct HA as [A1 A2 A3]. constructor; cbn; try assumption.
+           assert (Hfr : 0 <= (if tl then 0 else last_sn (s_changes s)) <= s_last s).
+           { destruct tl; [destruct A2; lia|]. rewrite A1, (contig_last _ _ A2). destruct A2; lia. }
+           split; [exact Hfr|]. split; [destruct A2; lia|]. split; [constructor|]. split; [rewrite Hnet; constructor|].
+           unfold ROk, RB, RCrel, Complete; cbn. destruct A2 as [_ A2].
+           repeat split; try lia; try constructor.
+      * linv_split; cbn; try assumption.
+        -- intros r' Hr'. injection Hr' as <-. reflexivity.
+        -- intros p r' w Ep Hrel Er' Ew. injection Ep as <-. injection Er' as <-. cbn in Ew. injection Ew as <-.
+           constructor; cbn; try lia; try reflexivity; try discriminate.
+           rewrite Hnet. constructor.
+    + apply Live_poke with (b := true). split.
+      * split; [|split].
+        -- destruct HS as [S1 S2 S3 S4 S5]. constructor; cbn; try assumption. reflexivity.
+        -- intros Hn. cbn in Hn. discriminate.
+        -- destruct HA as [A1 A2 A3]. constructor; cbn; try assumption. rewrite Hrp. exact I.
+      * linv_split; cbn; try assumption.
+        -- intros r' Hr'. injection Hr' as <-. reflexivity.
+        -- intros p r' w Ep. congruence.
+  - (* AWfa *) unfold step. cbn [act].
+    destruct (is_acked (s_rp s) (s_last s)); cbn [fst]; apply Live_poke with (b := true);
+      (split; [apply CInv_set_waits; assumption|]);
+      (eapply LInv_ext; [exact HLI|cbn; lia|reflexivity|reflexivity|reflexivity|reflexivity|reflexivity|]);
+      intros r' Hr'; exists r'; auto.
+  - (* AWfaPoll *) unfold step. cbn [act]. destruct (poll (s_waits s)) as [wl o]. cbn [fst]. apply Live_poke with (b := true).
+    split; [apply CInv_set_waits; assumption|].
+    eapply LInv_ext; [exact HLI|cbn; lia|reflexivity|reflexivity|reflexivity|reflexivity|reflexivity|].
+    intros r' Hr'. exists r'. auto.
+  - (* AWfh *) unfold step. pose proof (CInv_act cf s AWfh Hd eq_refl HC) as HC1. cbn [act] in *.
+    destruct (s_rd s) as [r|] eqn:Er; [|cbn [fst]; apply Live_poke with (b := true); assumption].
+    destruct (negb (rd_alive r)); [cbn [fst]; apply Live_poke with (b := true); assumption|].
+    destruct (negb (rd_tl r)); [cbn [fst]; apply Live_poke with (b := true); assumption|].
+    destruct (hist_received (rd_wp r)); cbn [fst] in *; apply Live_poke with (b := true); (split; [exact HC1|]);
+      (eapply LInv_ext; [exact HLI|cbn; lia|reflexivity|reflexivity|reflexivity|reflexivity|reflexivity|]);
+      intros r' Hr'; cbn in Hr'; injection Hr' as <-; exists r; cbn; auto.
+  - (* AWfhPoll *) unfold step. pose proof (CInv_act cf s AWfhPoll Hd eq_refl HC) as HC1. cbn [act] in *.
+    destruct (s_rd s) as [r|] eqn:Er; [|cbn [fst]; apply Live_poke with (b := true); assumption].
+    destruct (poll (rd_hwaits r)) as [wl o]. cbn [fst] in *. apply Live_poke with (b := true). split; [exact HC1|].
+    eapply LInv_ext; [exact HLI|cbn; lia|reflexivity|reflexivity|reflexivity|reflexivity|reflexivity|].
+    intros r' Hr'. cbn in Hr'. injection Hr' as <-. exists r. cbn. auto.
+  - (* AQuery *) unfold step. cbn [act fst]. apply Live_poke with (b := true). assumption.
+  - (* ANow *) unfold step. cbn [act fst]. apply Live_poke with (b := true). assumption.
 Qed.
